@@ -120,7 +120,7 @@ def lang_header(base, lang, cfg):
 
 def gen_form(rng: random.Random, cfg=None) -> Form:
     cfg = merged(cfg)
-    if cfg.get("delim") == ":" and (cfg["p_bind_extra"] or cfg["p_instance_extra"] or cfg["p_body_extra"]):
+    if (cfg.get("delim") or "").strip() == ":" and (cfg["p_bind_extra"] or cfg["p_instance_extra"] or cfg["p_body_extra"]):
         cfg["delim"] = "::"  # single-colon delimiters are only honoured when no header in the sheet uses '::'
     f = Form()
     names = Names(rng, cfg["name_style"])
